@@ -250,3 +250,24 @@ func InstrPos(i ssa.Instruction) token.Pos {
 	}
 	return i.Parent().Pos()
 }
+
+// DomGuards returns the branch outcomes that necessarily hold when block b
+// executes: every If edge whose target has the If block as its only
+// predecessor and dominates b.
+func (fi *FuncInfo) DomGuards(b *ssa.BasicBlock) []Branch {
+	var out []Branch
+	for _, a := range fi.Fn.Blocks {
+		if len(a.Succs) != 2 || a.Succs[0] == a.Succs[1] {
+			continue
+		}
+		if _, ok := a.Instrs[len(a.Instrs)-1].(*ssa.If); !ok {
+			continue
+		}
+		for si, s := range a.Succs {
+			if len(s.Preds) == 1 && s.Dominates(b) {
+				out = append(out, Branch{a, si})
+			}
+		}
+	}
+	return out
+}
